@@ -904,6 +904,9 @@ def c14(case: dict, cv: CallView, out: list, budget_spec: dict | None = None) ->
     metrics = [e for e in cv.events if e[0] == "metric" and e[1] not in BREAKER_EVENTS]
     logs = [e for e in cv.events if e[0] == "log" and e[1] not in BREAKER_EVENTS]
     op_name = case["cfg"].get("operation", "op")
+    if not op_name and str(case.get("entry", "")).startswith(("decorator", "adecorator")):
+        op_name = "sfn" if case["entry"].startswith("decorator") else "fn"  # @retry names the operation after the function
+    op_name = op_name or None  # an empty name means no operation tag
     pl = case.get("placement") or {}
     has_m, has_l = pl.get("metric", True), pl.get("log", True)
     seq = metrics if has_m else [("metric", e[1], e[2].get("attempt"), e[2].get("sleep_s"), {k: v for k, v in e[2].items() if k not in ("attempt", "sleep_s", "retry_after_s")}) for e in logs]
